@@ -7,6 +7,7 @@
 EXTENDS Naturals, Integers, Sequences
 
 Bit == {0, 1}
+Mod(a, b) == a % b
 BTake(b, n) == SubSeq(b, 1, n)
 BDrop(b, n) == SubSeq(b, n + 1, Len(b))
 BSub(b, i, j) == SubSeq(b, i + 1, j)                  \* bits [i, j)
